@@ -130,4 +130,11 @@ def run(repo, tier):
     res.floor('T-AXIS', 150)
     res.floor('T-MIRROR', 150)
     res.exhaustive_rules = ['T-FRAME over every (X, cutout_X) property pair']
+    from .C14 import find_peaks_rules
+    find_peaks_rules(repo, res)
+    from .common import run_no_cached_property, run_unravel, run_slice_kind
+    run_no_cached_property(repo, res, {m for m in repo.modules if '.tests' not in m and 'extern' not in m})
+    run_unravel(repo, res, {m for m in repo.modules if '.tests' not in m and 'extern' not in m})
+    run_slice_kind(repo, res, {m for m in repo.modules if '.tests' not in m and 'extern' not in m})
+    res.floor('SLICE-KIND', 15)
     return res
